@@ -45,6 +45,10 @@ pub struct Cfg {
     pub background: f64,
     pub twins: bool,
     pub heal: bool,
+    /// capture node stalls: arrivals queue up while the eviction timer runs
+    pub stall: bool,
+    /// network partition: every frame of some hosts is lost for a while
+    pub partition: bool,
 }
 
 pub fn gen_cfg(mode: &str, c: &mut Rng) -> Cfg {
@@ -65,7 +69,7 @@ pub fn gen_cfg(mode: &str, c: &mut Rng) -> Cfg {
         hosts: if tiny { c.usize_range(1, 3) } else { c.usize_range(1, 6) },
         datagrams_per_host: if tiny { c.usize_range(1, 3) } else { c.usize_range(1, 12) },
         max_frags: if tiny { 6 } else { *c.pick(&[2usize, 3, 5, 8, 16, 40]) },
-        big_payload_permille: if tiny { 0 } else { *c.pick(&[0u64, 0, 5, 20]) },
+        big_payload_permille: if tiny { 0 } else { *c.pick(&[0u64, 0, 5, 20, 150]) },
         p_drop: if on(c) { rate(c, 0.005, 0.2) } else { 0.0 },
         p_dup: if c.bool() { rate(c, 0.01, 0.4) } else { 0.0 },
         jitter_us: jitter,
@@ -89,6 +93,8 @@ pub fn gen_cfg(mode: &str, c: &mut Rng) -> Cfg {
         background: *c.pick(&[0.0, 0.05, 0.3]),
         twins: c.chance(1, 3),
         heal: faulty,
+        stall: on(c) && c.chance(1, 2),
+        partition: on(c) && c.chance(1, 2),
     };
     if mode == "bulk" {
         cfg.evict = true;
@@ -108,7 +114,9 @@ pub fn gen_cfg(mode: &str, c: &mut Rng) -> Cfg {
         || cfg.evict
         || cfg.restart
         || cfg.checkpoint
-        || cfg.alloc_fail)
+        || cfg.alloc_fail
+        || cfg.stall
+        || cfg.partition)
     {
         // at least one fault kind in a faulty run
         cfg.p_drop = 0.05;
@@ -137,6 +145,8 @@ enum Ev {
         frame: Vec<u8>,
         truth: Option<Truth>,
         passthrough: bool,
+        /// ether type of the packet behind the tags (known to the sender)
+        inner: u16,
     },
     Tick,
     SendDatagram(usize),
@@ -145,6 +155,10 @@ enum Ev {
     Rollback,
     ClockJump(i64),
     Heal,
+    /// the capture node processes nothing until this time
+    Stall(u64),
+    /// frames of hosts with index % 2 == parity are lost until this time
+    Partition(u64, usize),
 }
 
 struct Item {
@@ -189,8 +203,11 @@ pub struct World {
     fault_in_flight: bool,
     interleaved: bool,
     last_stream_host: Option<usize>,
-    redeliver: Vec<(usize, Vec<u8>, Option<Truth>)>,
+    redeliver: Vec<(usize, Vec<u8>, Option<Truth>, u16)>,
     pub record_to_thread_local: bool,
+    stall_until: u64,
+    partition_until: u64,
+    partition_parity: usize,
     completed_keys: std::collections::BTreeSet<Key>,
     evicted_keys: std::collections::BTreeSet<Key>,
     sent_keys: std::collections::BTreeSet<Key>,
@@ -216,9 +233,10 @@ fn gen_host(i: usize, w: &mut Rng, twin_of: Option<&HostCfg>, twin_dim: u64) -> 
         }
         return h;
     }
-    let link = match w.below(5) {
+    let link = match w.below(6) {
         0 => Link::BareIp,
         1 => Link::Sll,
+        2 => Link::EtherPayload,
         _ => Link::Eth,
     };
     let nv = if link == Link::BareIp { 0 } else { *w.pick(&[0usize, 0, 1, 1, 2, 3]) };
@@ -363,6 +381,9 @@ impl World {
             last_stream_host: None,
             redeliver: Vec::new(),
             record_to_thread_local: false,
+            stall_until: 0,
+            partition_until: 0,
+            partition_parity: 0,
             completed_keys: Default::default(),
             evicted_keys: Default::default(),
             sent_keys: Default::default(),
@@ -383,7 +404,8 @@ impl World {
             let mut next_id: u32 = self.wl.u32();
             for n in 0..self.cfg.datagrams_per_host {
                 let len = if self.wl.below(1000) < self.cfg.big_payload_permille {
-                    *self.wl.pick(&[65_515usize, 65_000, 40_000, 20_000])
+                    // up to the largest datagram the 13-bit offset + 16-bit length allow
+                    *self.wl.pick(&[65_535usize, 65_535, 65_534, 65_528, 65_529, 65_515, 65_000, 40_000, 20_000])
                 } else {
                     match self.wl.below(10) {
                         0 => self.wl.usize_range(9, 24),
@@ -391,7 +413,6 @@ impl World {
                         _ => self.wl.usize_range(600, 3_000),
                     }
                 };
-                let len = if self.hosts[h].v6 { len.min(65_527 - 8) } else { len };
                 let mut payload = vec![0u8; len];
                 Rng::new(mix(&[seed, 0xda7a, h as u64, n as u64])).fill(&mut payload);
                 let reuse = n > 0 && self.wl.prob(self.cfg.p_id_reuse);
@@ -445,8 +466,20 @@ impl World {
             let by = if self.node.bool() { 10 * self.cfg.timeout_us as i64 } else { -(self.cfg.timeout_us as i64) };
             self.push(at, Ev::ClockJump(by));
         }
+        if self.cfg.stall {
+            let at = self.node.range(0, horizon);
+            let len = self.node.range(1, 4 * self.cfg.timeout_us + 50);
+            self.push(at, Ev::Stall(at + len));
+        }
+        if self.cfg.partition {
+            let at = self.node.range(0, horizon);
+            let len = self.node.range(1, horizon / 3 + 50);
+            let parity = self.node.below(2) as usize;
+            self.push(at, Ev::Partition(at + len, parity));
+        }
         if self.cfg.heal {
-            self.push(horizon + 5 * self.cfg.jitter_us + 10, Ev::Heal);
+            // behind every arrival, also those a stall deferred
+            self.push(horizon + 5 * self.cfg.jitter_us + 10 + 4 * self.cfg.timeout_us + 60, Ev::Heal);
         }
     }
 
@@ -476,6 +509,11 @@ impl World {
         for _ in 0..copies {
             if faults_on && self.net.prob(self.cfg.p_drop) {
                 stats.inc("fault_fired.drop");
+                self.fault_in_flight = true;
+                continue;
+            }
+            if faults_on && self.now < self.partition_until && host % 2 == self.partition_parity {
+                stats.inc("fault_fired.partition_loss");
                 self.fault_in_flight = true;
                 continue;
             }
@@ -509,7 +547,7 @@ impl World {
                 stats.inc("fault_fired.trailer_padding");
             }
             let at = self.now + delay;
-            self.push(at, Ev::Arrive { host, frame: fr, truth: tr, passthrough: false });
+            self.push(at, Ev::Arrive { host, frame: fr, truth: tr, passthrough: false, inner: if h.v6 { ETHER_IPV6 } else { ETHER_IPV4 } });
         }
     }
 
@@ -601,8 +639,22 @@ impl World {
             let kind = *self.wl.pick(&[Background::Unfragmented, Background::AtomicV6, Background::Arp, Background::UnknownEtherType]);
             let body = self.wl.bytes(self.wl.clone().usize_range(0, 40));
             let frame = encode_background(&self.hosts[d.host], kind, &body, d.id);
+            let hb = &self.hosts[d.host];
+            let linked = hb.link != Link::BareIp;
+            let inner = match kind {
+                Background::Arp if linked => ETHER_ARP,
+                Background::UnknownEtherType if linked => 0x88b5,
+                Background::AtomicV6 => ETHER_IPV6,
+                _ => {
+                    if hb.v6 {
+                        ETHER_IPV6
+                    } else {
+                        ETHER_IPV4
+                    }
+                }
+            };
             let at = self.now + 10 + self.net.range(0, self.cfg.jitter_us.max(1));
-            self.push(at, Ev::Arrive { host: d.host, frame, truth: None, passthrough: true });
+            self.push(at, Ev::Arrive { host: d.host, frame, truth: None, passthrough: true, inner });
         }
     }
 
@@ -667,11 +719,29 @@ impl World {
                     let healed = self.healed;
                     self.send_datagram(idx, stats, healed);
                 }
-                Ev::Arrive { host, frame, truth, passthrough } => {
+                Ev::Arrive { host, frame, truth, passthrough, inner } => {
+                    if self.now < self.stall_until && !self.healed {
+                        // stalled node: the frame waits in the capture queue
+                        // and is processed (and timestamped) when the stall
+                        // ends, in arrival order
+                        stats.inc("fault_fired.node_stall_deferred_delivery");
+                        let at = self.stall_until;
+                        self.push(at, Ev::Arrive { host, frame, truth, passthrough, inner });
+                        continue;
+                    }
                     let h = &self.hosts[host];
                     let alloc_fail = self.cfg.alloc_fail && !self.healed && self.node.chance(1, 12);
+                    let entry = if h.link == Link::EtherPayload {
+                        // the ether type in front of the frame is read off the
+                        // host configuration (IPv4 / IPv6 / ARP / unknown
+                        // background frames carry it in their first tag or not
+                        // at all, so it is derived from the frame kind)
+                        format!("et:{:04x}", first_ether_type(h, inner))
+                    } else {
+                        h.link.entry().to_string()
+                    };
                     let op = Op::Deliver {
-                        entry: h.link.entry().to_string(),
+                        entry,
                         channel: h.channel,
                         ts: self.ts(),
                         frame: frame.clone(),
@@ -693,7 +763,7 @@ impl World {
                         // the same fragment is delivered again: it must now succeed
                         stats.inc("fault_fired.allocation_failure");
                         self.fault_in_flight = true;
-                        self.redeliver.push((host, frame, truth));
+                        self.redeliver.push((host, frame, truth, inner));
                     }
                     if let Some((key, _len)) = &info.completed {
                         // which datagram was that?
@@ -718,9 +788,9 @@ impl World {
                             stats.inc("fault_fired.foreign_buffer_returned");
                         }
                     }
-                    if let Some((h2, fr, tr)) = self.redeliver.pop() {
+                    if let Some((h2, fr, tr, inner)) = self.redeliver.pop() {
                         let at = self.now + 1;
-                        self.push(at, Ev::Arrive { host: h2, frame: fr, truth: tr, passthrough: false });
+                        self.push(at, Ev::Arrive { host: h2, frame: fr, truth: tr, passthrough: false, inner });
                     }
                 }
                 Ev::Tick => {
@@ -788,6 +858,17 @@ impl World {
                     if !self.healed {
                         self.skew += by;
                         stats.inc(if by > 0 { "fault_fired.clock_jump_forward" } else { "fault_fired.clock_jump_backward" });
+                    }
+                }
+                Ev::Stall(until) => {
+                    if !self.healed {
+                        self.stall_until = until;
+                    }
+                }
+                Ev::Partition(until, parity) => {
+                    if !self.healed {
+                        self.partition_until = until;
+                        self.partition_parity = parity;
                     }
                 }
                 Ev::Heal => {
